@@ -19,7 +19,7 @@
      open for writing/creating, write to a descriptor other than 0, fsync, ftruncate, utimes), counted per process
    SYSSHIM_LOGDATA=<n> : bytes of data shown per logged write (default 64); SYSSHIM_LOGREAD=<fd,fd> : log reads on these
    SYSSHIM_GATEALL=1 (with SYSSHIM_GATE): every unlink/link/rename/open-for-writing also stops at the gate ("mut")
-   faults: also stat/lstat ("stat:<pathsub>:<errno>[:nth]"); read rules match "fd<N> <path the descriptor was opened with>"
+   faults: also fork ("fork::<errno>[:nth]"), stat/lstat ("stat:<pathsub>:<errno>[:nth]"); read rules match "fd<N> <path the descriptor was opened with>"
    The shim changes nothing unless told to. */
 #define _GNU_SOURCE
 #include <dlfcn.h>
@@ -241,6 +241,7 @@ int setgid(gid_t g) { REAL(setgid); int e = fault("setgid", ""), r;
 int setuid(uid_t u) { REAL(setuid); int e = fault("setuid", ""), r;
   if (e) { errno = e; slog("setuid %u = -1 %d INJECTED", (unsigned) u, e); return -1; }
   r = real(u); { int se = errno; slog("setuid %u = %d %d", (unsigned) u, r, r ? se : 0); errno = se; } return r; }
+pid_t fork(void) { REAL(fork); int e = fault("fork", ""); if (e) { errno = e; slog("fork = -1 %d INJECTED", e); return -1; } return real(); }
 int execv(const char *path, char *const argv[]) { REAL(execv); slog("execv %s uid=%u gid=%u", path, (unsigned) getuid(), (unsigned) getgid()); return real(path, argv); }
 unsigned int alarm(unsigned int secs) { REAL(alarm); slog("alarm %u", secs); return real(secs); }
 ssize_t read(int fd, void *buf, size_t n) { REAL(read); char nm[300]; int e;
